@@ -1,1 +1,21 @@
 import Reamber.Props.C15
+
+#print axioms Reamber.PermInv.sameRowsB_iff
+#print axioms Reamber.PermInv.tiesEqualB_iff
+#print axioms Reamber.PermInv.isort_key_eq_of_perm
+#print axioms Reamber.PermInv.sortRow_append_eq_of_perm
+#print axioms Reamber.PermInv.groupLast_congr
+#print axioms Reamber.PermInv.dominant_bpm_perm
+#print axioms Reamber.PermInv.sv_normalize_perm
+#print axioms Reamber.PermInv.sv_normalize_perm_override
+#print axioms Reamber.PermInv.dominant_bpm_order_counterexample
+#print axioms Reamber.PermInv.dominant_bpm_tie_counterexample
+#print axioms Reamber.PermInv.scroll_speed_perm
+#print axioms Reamber.PermInv.scroll_speed_sv_tie_counterexample
+#print axioms Reamber.PermInv.full_ln_perm
+#print axioms Reamber.PermInv.full_ln_tie_counterexample
+#print axioms Reamber.PermInv.rate_perm
+#print axioms Reamber.PermInv.hitsound_copy_perm_partial
+#print axioms Reamber.PermInv.n15a_object_dtype_counterexample
+#print axioms Reamber.PermInv.write_qua_perm
+#print axioms Reamber.PermInv.convert_one_perm
